@@ -207,7 +207,7 @@ theorem runProgramRec_overflow_noop (runF : RunF) (p : Nat) (b : Beh) (s : Vm) (
 /-- Idle without the job-queue clause: Runtime.Try does not call leave(), jobs queued under it wait for the
 next leave (that is C10's concern) -/
 def IdleCtl (s : Vm) : Prop :=
-  s.sp = 0 ∧ s.sb = -1 ∧ s.prg = none ∧ s.stash = globalStash ∧ s.privEnv = none ∧
+  s.sp = 0 ∧ s.sb = -1 ∧ s.prg = none ∧ s.stash = globalStash ∧ s.privEnv = [] ∧
   s.callStack = [] ∧ s.tryStack = [] ∧ s.iterStack = [] ∧ s.refStack = [] ∧ s.interrupted = false
 
 theorem fresh_idle (m : Nat) : Idle (Vm.fresh m) := by
